@@ -59,7 +59,7 @@ fn post(rep: &Report, _t: Tier) -> Vec<String> {
             out.push(format!("policy clause {:?} is never the first failing clause of an explored input", c));
         }
     }
-    for fam in ["L1", "L1r", "L2", "L2pair", "L4", "L5"] {
+    for fam in ["L1", "L1r", "L2", "L2pair", "L2types", "L2class", "L4", "L5"] {
         if !rep.classes.contains_key(&format!("{}:accepted", fam)) {
             out.push(format!("family {} contains no accepted packet", fam));
         }
@@ -74,6 +74,7 @@ fn bounds(t: Tier) -> Value {
         "L1q_max_tail": t.pick(7, 7),
         "L1r_max_tail": t.pick(5, 6),
         "L2": "full one-record field product",
+        "L2types": "all 65536 record types x 8 data shapes x 3 sections; all 65536 classes in question and record; rdlen 0..40 for A/AAAA",
         "L4_seeds": closure_seeds(t.pick(0, 1)).len(),
         "L4_pairs": t.pick("none", "all pairs over 6 values on packets <= 80 bytes"),
         "L5": "label 62..64, name 253..256 (literal and via pointer), chains 0..18, lengths up to 131072",
@@ -247,6 +248,65 @@ fn run(ctx: &mut Ctx, rep: &mut Report, mode: Mode) {
                         p.extend_from_slice(b);
                         sw.one("L2pair", &p);
                     }
+                }
+            }
+        }
+    }
+    // L2types: every 16-bit record type x a few data shapes x every section; every 16-bit class in the
+    // question and in a record; every rdlen 0..40 for A and AAAA
+    {
+        let mut i = 0u64;
+        let base = |sec: usize| {
+            let mut p = vec![0x12, 0x34, 0x80, 0, 0, 1, 0, 0, 0, 0, 0, 0];
+            p[7 + 2 * sec] = 1;
+            p.extend_from_slice(&[1, b'a', 0, 0, 1, 0, 1]);
+            p
+        };
+        for t in 0..=0xffffu32 {
+            for sec in 0..3usize {
+                i += 1;
+                if !sw.ctx.mine(i) {
+                    continue;
+                }
+                for (rdlen, data) in [(0usize, 0usize), (1, 1), (3, 3), (4, 4), (16, 16), (22, 22), (5, 4), (3, 4)] {
+                    let mut p = base(sec);
+                    p.extend_from_slice(&[0xc0, 12]);
+                    p.extend_from_slice(&(t as u16).to_be_bytes());
+                    p.extend_from_slice(&[0, 1, 0, 0, 0, 1]);
+                    p.extend_from_slice(&(rdlen as u16).to_be_bytes());
+                    p.extend(std::iter::repeat(0u8).take(data));
+                    sw.one("L2types", &p);
+                }
+            }
+        }
+        for c in 0..=0xffffu32 {
+            i += 1;
+            if !sw.ctx.mine(i) {
+                continue;
+            }
+            let mut q = vec![0x12, 0x34, 0x80, 0, 0, 1, 0, 0, 0, 0, 0, 0, 1, b'a', 0, 0, 1];
+            q.extend_from_slice(&(c as u16).to_be_bytes());
+            sw.one("L2class", &q);
+            let mut p = base(0);
+            p.extend_from_slice(&[0xc0, 12, 0, 1]);
+            p.extend_from_slice(&(c as u16).to_be_bytes());
+            p.extend_from_slice(&[0, 0, 0, 1, 0, 4, 1, 2, 3, 4]);
+            sw.one("L2class", &p);
+        }
+        for t in [T_A, T_AAAA] {
+            for rdlen in 0..=40usize {
+                for data in [rdlen, rdlen + 1, rdlen.saturating_sub(1)] {
+                    i += 1;
+                    if !sw.ctx.mine(i) {
+                        continue;
+                    }
+                    let mut p = base(2);
+                    p.extend_from_slice(&[0]);
+                    p.extend_from_slice(&t.to_be_bytes());
+                    p.extend_from_slice(&[0, 1, 0, 0, 0, 1]);
+                    p.extend_from_slice(&(rdlen as u16).to_be_bytes());
+                    p.extend(std::iter::repeat(7u8).take(data));
+                    sw.one("L2types", &p);
                 }
             }
         }
